@@ -14,9 +14,9 @@ def enterCount (x : Nat) : List Ev → Int
 
 theorem kindOk_step {w w' : World} {e : Ev} (hk : KindOk w) (h : step w e = some w') : KindOk w' := by
   obtain ⟨hmono, hframes⟩ := step_kinds w w' e h
-  intro op k hm
-  rcases hframes op k hm with h1 | ⟨info, h2, h3⟩
-  · obtain ⟨info, h2, h3⟩ := hk op k h1
+  intro op k c hm
+  rcases hframes op k c hm with h1 | ⟨info, h2, h3⟩
+  · obtain ⟨info, h2, h3⟩ := hk op k c h1
     exact ⟨info, hmono _ _ h2, h3⟩
   · exact ⟨info, hmono _ _ h2, h3⟩
 
@@ -45,9 +45,9 @@ theorem rearms_only_rep (x : Nat) (w : World) (e : Ev) (hk : KindOk w) (hr : rea
   | exit op =>
     simp only [rearmsOf] at hr
     split at hr
-    · rename_i op' k rest hst
+    · rename_i op' k c rest hst
       by_cases hx : op = x ∧ op' = x
-      · have := hk op' k (by rw [hst]; exact List.mem_cons_self ..)
+      · have := hk op' k c (by rw [hst]; exact List.mem_cons_self ..)
         rw [hx.2] at this; exact this
       · simp [hx] at hr
     · exact absurd rfl hr
